@@ -19,108 +19,22 @@ func newCFG(r *Routine, flow *FlowResult) *xAnalysis {
 }
 
 func checkC07(c *Ctx, r *Report) {
-	r.Explanation = "Decided for both architectures: (a) the length guards of Open (nonce length and minimum tag size by panic, len(ciphertext) >= tagSize and the upper size limit by (nil, errOpen)) dominate every use of ciphertext, and the amd64 and arm64 inventories are equal guard for guard; (b) no byte is written to dst and no plaintext slice is returned unless the tag comparison succeeded: amd64 — every store of openAsm whose provenance is the dst parameter is dominated by the match edge of the verdict branch, and Open returns ret only under tagMatch == 1 where tagMatch is openAsm's result on both capacity paths; arm64 — the cryptoBlocks call and the return of ret are dominated by subtle.ConstantTimeCompare(...) == 1; (c) the comparison covers exactly tagSize bytes of the expected and the received tag (consumption of the compare loop, compared slices of length tagSize), is a single loop-free verdict, and every byte of the difference accumulators reaches the verdict (demanded-bits analysis of the fold); (d) every reject returns (nil, errOpen); (e) no index or slice bound of Open/Seal/ensureCapacity definitely exceeds a possible operand length for any (len(dst), cap(dst), len(ciphertext)). NOT decided: that the expected tag is the GHASH of the right data (C06) beyond the consumption rule of C11."
-	r.Trusted = []string{"go tool asm -S listing, opcode table", "go/ssa", "crypto/subtle.ConstantTimeCompare"}
-	f := map[string]*Folder{}
-	inv := map[string][]string{}
+	r.Explanation = "Decided for both architectures. Go side (glue domain: Open interpreted path by path over symbolic lengths, capacities and the tag size; the assembler routines and the block helpers by their contracts): (a) OPEN-GUARDS every outcome of Open that returns a nil error has established len(nonce) == nonceSize, tagSize >= 12, len(ciphertext) >= tagSize and the GCM length limit (decided as linear consequences of the path condition, not by the spelling of the guards); (b) OPEN-VERDICT every accepting outcome is conditioned on the tag comparison having returned 1 - the fused openAsm over the whole nonce, ciphertext and additional data with g.tagSize (amd64), or subtle.ConstantTimeCompare of exactly tagSize bytes of a local expected tag with the last tagSize bytes of the ciphertext (arm64); (c) OPEN-REJECT-RESULT every other outcome returns (nil, error); (d) RELEASE-AFTER-MATCH the Go code writes nothing into dst's array on a rejecting outcome and nothing before the comparison on an accepting one; (e) no slice or index bound of Open can be violated on any path (SLICE-BOUNDS, INDEX-BOUNDS). Assembler side (amd64 openAsm): every store whose provenance is the dst parameter is dominated by the match edge of the single loop-free verdict branch; the result is the constant chosen by that branch; the compare loops consume exactly tagSize bytes of both tags, every byte of received XOR expected is accumulated and every bit of the accumulators reaches the verdict. NOT decided: that the expected tag is the GHASH of the right data (C06) beyond the consumption rule of C11."
+	r.Trusted = []string{"go tool asm -S listing, opcode table", "go/ssa", "crypto/subtle.ConstantTimeCompare returns 1 exactly when its arguments are equal", "the LP decision procedure for path conditions (exact rational simplex)"}
 	for _, arch := range []string{"amd64", "arm64"} {
 		u, p := loadAsmBound(c, r, arch)
 		if u == nil {
 			return
 		}
-		f[arch] = NewFolder(p)
-		fn := p.MustFunc(r, "sm4.(*sm4GcmAsm).Open")
-		if fn == nil {
-			continue
-		}
-		name := "[" + arch + "] sm4.(*sm4GcmAsm).Open"
-		var accept []*ssa.Return
-		nrej := 0
-		for _, b := range fn.Blocks {
-			ret, ok := b.Instrs[len(b.Instrs)-1].(*ssa.Return)
-			if !ok || b == fn.Recover {
-				continue // (the recover block of a function with defers re-returns the named results; it has no path of its own)
-			}
-			if isNilConst(retVals(ret)[1]) {
-				accept = append(accept, ret)
-				continue
-			}
-			// (d) rejects
-			okRej := isNilConst(retVals(ret)[0])
-			if ld, isLd := retVals(ret)[1].(*ssa.UnOp); !isLd || !isGlobalNamed(ld.X, "errOpen") {
-				okRej = false
-			}
-			nrej++
-			r.Check(okRej, "REJECT-RESULT", fmt.Sprintf("%s rejecting return #%d", name, nrej), p.InstrPos(ret), "a rejecting return yields (nil, errOpen)")
-			r.Count("reject_returns_"+arch, 1)
-		}
-		if len(accept) != 1 {
-			r.Viol("SINGLE-ACCEPT", name, p.Pos(fn.Pos()), fmt.Sprintf("%d returns with a nil error; exactly one expected", len(accept)))
-			continue
-		}
-		ret := accept[0]
-		ps := newPathSym(p, fn, f[arch])
-		ps.WalkTo(ret.Block())
-		reqs := []guardReq{
-			{"(len(nonce), =, nonceSize, panic)", []string{"len(nonce) == *g.nonceSize"}, "panic"},
-			{"(tagSize, >=, 12, panic)", []string{"*g.tagSize >= 12"}, "panic"},
-			{"(len(ciphertext), >=, tagSize, reject)", []string{"len(ciphertext) >= *g.tagSize"}, "error"},
-			{"(len(ciphertext), <=, limit + tagSize, reject)", []string{"len(ciphertext) <= (68719476704 + *g.tagSize)"}, "error"},
-		}
-		checkInventory(r, p, ps, name, p.InstrPos(ret), reqs, nil)
-		texts := ps.GuardTexts()
-		if len(texts) >= 4 {
-			inv[arch] = texts[:4]
-		}
-		// guards first: every use of ciphertext content (call argument / slice / index) is dominated by the length guard
-		var lenGuard *Guard
-		if g := ps.FindGuard("len(ciphertext) >= *g.tagSize"); g != nil {
-			lenGuard = g
-		}
-		if lenGuard != nil {
-			var ct *ssa.Parameter
-			for _, prm := range fn.Params {
-				if prm.Name() == "ciphertext" {
-					ct = prm
-				}
-			}
-			okBlock := lenGuard.If.Block().Succs[0]
-			if lenGuard.Truth == false {
-				okBlock = lenGuard.If.Block().Succs[1]
-			}
-			bad := ""
-			if ct != nil {
-				for _, ref := range *ct.Referrers() {
-					if call, isLen := ref.(*ssa.Call); isLen {
-						if b, ok := call.Call.Value.(*ssa.Builtin); ok && b.Name() == "len" {
-							continue
-						}
-					}
-					if _, isDbg := ref.(*ssa.DebugRef); isDbg {
-						continue
-					}
-					if !okBlock.Dominates(ref.Block()) {
-						bad = "ciphertext used at " + p.InstrPos(ref) + " before the length guard"
-					}
-				}
-			}
-			r.Check(bad == "", "GUARDS-FIRST", name, p.InstrPos(lenGuard.If), "every use of ciphertext other than len() is dominated by len(ciphertext) >= tagSize"+ifs(bad != "", ": "+bad))
-		}
-		// (b)/(c) release only after a match
+		glueGCMOpen(r, p, arch)
 		if arch == "amd64" {
-			c07Amd64(r, p, u, fn, ret, ps)
-		} else {
-			c07Arm64(r, p, fn, ret, ps)
+			c07Amd64(r, u)
 		}
-		// (e) no length-driven panic
-		lidxFuncs(r, p, arch, []string{"sm4.(*sm4GcmAsm).Open", "sm4.(*sm4GcmAsm).Seal", "sm4.ensureCapacity"})
 	}
-	if len(inv["amd64"]) == 4 && len(inv["arm64"]) == 4 {
-		r.Check(strings.Join(inv["amd64"], ";") == strings.Join(inv["arm64"], ";"), "SIBLING-AGREEMENT", "Open guards amd64 = arm64", "sm4/", fmt.Sprintf("amd64: %v; arm64: %v", inv["amd64"], inv["arm64"]))
-	} else {
-		r.Viol("SIBLING-AGREEMENT", "Open guards amd64 = arm64", "sm4/", "the four leading guards could not be collected on both architectures")
-	}
-	r.Floor("required_guards", 8)
+	r.Floor("open_accepting_outcomes_amd64", 1)
+	r.Floor("open_accepting_outcomes_arm64", 1)
+	r.Floor("open_rejecting_outcomes_amd64", 2)
+	r.Floor("open_rejecting_outcomes_arm64", 2)
 	r.Floor("dst_stores_amd64", 10)
 	r.Floor("consumption_obligations", 4)
 }
@@ -130,55 +44,7 @@ func isGlobalNamed(v ssa.Value, name string) bool {
 	return ok && g.Name() == name
 }
 
-func c07Amd64(r *Report, p *Prog, u *AsmUnit, fn *ssa.Function, ret *ssa.Return, ps *pathSym) {
-	name := "[amd64] sm4.(*sm4GcmAsm).Open"
-	// Go side: ret returned only under tagMatch == 1, tagMatch = openAsm(...) on every capacity path
-	okGo := false
-	detail := "no guard of the form tagMatch == 1 dominates the accepting return"
-	for _, g := range ps.Guards {
-		bo, ok := g.If.Cond.(*ssa.BinOp)
-		if !ok {
-			continue
-		}
-		var v ssa.Value
-		if c, isC := bo.Y.(*ssa.Const); isC && c.Value != nil && c.Value.ExactString() == "1" {
-			v = bo.X
-		}
-		if v == nil {
-			continue
-		}
-		calls := 0
-		allOpen := true
-		var visit func(x ssa.Value, d int)
-		visit = func(x ssa.Value, d int) {
-			if d > 4 {
-				allOpen = false
-				return
-			}
-			switch y := x.(type) {
-			case *ssa.Phi:
-				for _, e := range y.Edges {
-					visit(e, d+1)
-				}
-			case *ssa.Call:
-				if cal := y.Call.StaticCallee(); cal != nil && cal.Name() == "openAsm" {
-					calls++
-				} else {
-					allOpen = false
-				}
-			default:
-				allOpen = false
-			}
-		}
-		visit(v, 0)
-		accepted := (bo.Op.String() == "==" && g.Truth) || (bo.Op.String() == "!=" && !g.Truth)
-		if allOpen && calls >= 1 && accepted {
-			kind, _ := rejectKind(&g, nil)
-			okGo = kind == "error"
-			detail = fmt.Sprintf("accepting return is dominated by openAsm(...) == 1 (%d call sites feed the verdict); failing arm: %s", calls, kind)
-		}
-	}
-	r.Check(okGo, "RELEASE-AFTER-MATCH", name+" returns ret only on a match", p.InstrPos(ret), detail)
+func c07Amd64(r *Report, u *AsmUnit) {
 	// assembler side
 	rt := u.Routine("openAsm")
 	if rt == nil {
@@ -595,73 +461,6 @@ func reachesWithoutLeaving(rt *Routine, from, to int) bool {
 		stack = append(stack, rt.Instrs[i].Succ...)
 	}
 	return false
-}
-
-func c07Arm64(r *Report, p *Prog, fn *ssa.Function, ret *ssa.Return, ps *pathSym) {
-	name := "[arm64] sm4.(*sm4GcmAsm).Open"
-	var g *Guard
-	for i := range ps.Guards {
-		tx := ps.Guards[i].Text
-		if strings.HasPrefix(tx, "ConstantTimeCompare(") && strings.HasSuffix(tx, " == 1") {
-			g = &ps.Guards[i]
-		}
-		if strings.HasPrefix(tx, "Equal(") && strings.HasSuffix(tx, ")") { // bytes.Equal: a full comparison too (its timing is C09's business)
-			g = &ps.Guards[i]
-		}
-	}
-	if g == nil {
-		r.Viol("RELEASE-AFTER-MATCH", name, p.InstrPos(ret), "the accepting return is not dominated by a full comparison of the expected and the received tag (subtle.ConstantTimeCompare(...) == 1 or bytes.Equal); guards: "+strings.Join(ps.GuardTexts(), " ; "))
-		return
-	}
-	kind, _ := rejectKind(g, nil)
-	r.Check(kind == "error", "RELEASE-AFTER-MATCH", name+" returns ret only on a match", p.InstrPos(g.If), "accepting return dominated by `"+g.Text+"`; failing arm: "+kind)
-	okBlock := g.If.Block().Succs[0]
-	if !g.Truth {
-		okBlock = g.If.Block().Succs[1]
-	}
-	// decryption (cryptoBlocks) and destination sizing only after the match
-	n := 0
-	for _, b := range fn.Blocks {
-		for _, in := range b.Instrs {
-			call, ok := in.(*ssa.Call)
-			if !ok || call.Call.StaticCallee() == nil {
-				continue
-			}
-			cn := call.Call.StaticCallee().Name()
-			if cn == "cryptoBlocks" || cn == "ensureCapacity" {
-				n++
-				r.Check(okBlock.Dominates(b), "RELEASE-AFTER-MATCH", name+" "+cn+" after the match", p.InstrPos(call), cn+" (which writes/sizes the plaintext destination) is dominated by the tag-match edge")
-			}
-		}
-	}
-	r.Count("dst_writers_arm64", n)
-	// compared slices have length tagSize
-	var cmpCall ssa.Value = g.If.Cond
-	if bo, isB := g.If.Cond.(*ssa.BinOp); isB {
-		cmpCall = bo.X
-	}
-	if call, ok := cmpCall.(*ssa.Call); ok {
-		env := NewLinEnv(p, fn)
-		want := env.Int(tagSizeLoad(fn))
-		for i, a := range call.Call.Args {
-			ls, ok := env.Len(a)
-			r.Check(ok && len(ls) == 1 && want != nil && ls[0].Equal(want), "TAG-WIDTH", fmt.Sprintf("%s ConstantTimeCompare arg%d", name, i), p.InstrPos(call), fmt.Sprintf("compared slice has length %v; the tag size is %v", linStrs(ls), want))
-		}
-	}
-}
-
-// tagSizeLoad finds a load of g.tagSize in fn.
-func tagSizeLoad(fn *ssa.Function) ssa.Value {
-	for _, b := range fn.Blocks {
-		for _, in := range b.Instrs {
-			if ld, ok := in.(*ssa.UnOp); ok {
-				if fa, ok := ld.X.(*ssa.FieldAddr); ok && fa.X == ssa.Value(fn.Params[0]) && fieldName(fa) == "tagSize" {
-					return ld
-				}
-			}
-		}
-	}
-	return nil
 }
 
 func lidxFuncs(r *Report, p *Prog, arch string, names []string) {
